@@ -103,11 +103,30 @@ Proof.
     (destruct rb; [..]; (exists (E KEPERM); now right) || (exists (E KENOENT); now right)).
 Qed.
 
-(* Mkdir of a directory the base has: EEXIST, the overlay is not called *)
-Theorem cow_mkdir_base_dir sb sl tbl p perm sb1 fi :
-  bstep sb (Stat p) = (sb1, RInfo fi) -> fi_dir fi = true ->
-  cow (sb, sl, tbl) (Mkdir p perm) = ((sb1, sl, tbl), RErr (E KExist)).
-Proof. intros Eb Hd. cbn [cow_step]. unfold b_is_dir. now rewrite Eb, Hd. Qed.
+(* Mkdir (cow_mkdir_checks_union = 1, read from copyOnWriteFs.go): `if _, err := u.Stat(name); err == nil`
+   — a name the union's own Stat finds, in the overlay or (overlay: "does not exist") in the base, as a
+   directory or as a file — is refused with &PathError{Err: ErrFileExists}; only Stat was called *)
+Lemma cow_mkdir_checks_union_on : cow_mkdir_checks_union = 1.
+Proof. reflexivity. Qed.
+
+Theorem cow_mkdir_overlay_entry sb sl tbl p perm sl1 fi :
+  lstep sl (Stat p) = (sl1, RInfo fi) ->
+  cow (sb, sl, tbl) (Mkdir p perm) = ((sb, sl1, tbl), RErr (EW KExist)).
+Proof.
+  intros E. cbn [cow_step]. rewrite cow_mkdir_checks_union_on. change (1 =? 1) with true. cbv iota.
+  now rewrite E.
+Qed.
+
+(* Mkdir of a name (directory or not) the base has and the overlay reports as not existing: EEXIST;
+   the overlay was only Stat'ed *)
+Theorem cow_mkdir_base_dir sb sl tbl p perm sl1 r sb1 fi :
+  lstep sl (Stat p) = (sl1, r) -> is_info r = false -> cow_is_not_exist (err_of r) = true ->
+  bstep sb (Stat p) = (sb1, RInfo fi) ->
+  cow (sb, sl, tbl) (Mkdir p perm) = ((sb1, sl1, tbl), RErr (EW KExist)).
+Proof.
+  intros E Hr Hn Eb. cbn [cow_step]. rewrite cow_mkdir_checks_union_on. change (1 =? 1) with true. cbv iota.
+  rewrite E. destruct r; try discriminate Hr; rewrite Hn, Eb; reflexivity.
+Qed.
 
 (* the same with views: if Stat changes nothing an observer can see on either side, and a FAILED
    call leaves the overlay as it was, these refused calls leave both views and the handle table
@@ -143,14 +162,27 @@ Proof.
     unfold same_view; cbn [fst snd]; repeat split; auto.
 Qed.
 
-Theorem cow_mkdir_base_dir_view sb sl tbl p perm fi :
-  snd (bstep sb (Stat p)) = RInfo fi -> fi_dir fi = true ->
-  snd (cow (sb, sl, tbl) (Mkdir p perm)) = RErr (E KExist) /\
+(* Mkdir of any name the union's Stat finds *)
+Theorem cow_mkdir_base_dir_view sb sl tbl p perm :
+  is_info (snd (cow (sb, sl, tbl) (Stat p))) = true ->
+  snd (cow (sb, sl, tbl) (Mkdir p perm)) = RErr (EW KExist) /\
   same_view (sb, sl, tbl) (fst (cow (sb, sl, tbl) (Mkdir p perm))).
 Proof.
-  intros Hb Hd. destruct (bstep sb (Stat p)) as [sb1 rb] eqn:Eb. cbn [snd] in Hb. subst rb.
-  rewrite (cow_mkdir_base_dir sb sl tbl p perm sb1 fi Eb Hd). split; [reflexivity|].
-  unfold same_view. cbn [fst snd]. pose proof (HbStat sb p) as H1. rewrite Eb in H1. now repeat split.
+  intros Hs. destruct (lstep sl (Stat p)) as [sl1 r] eqn:E.
+  pose proof (HlStat sl p) as H2. rewrite E in H2. cbn [fst] in H2.
+  destruct (is_info r) eqn:Hr.
+  - destruct r; try discriminate Hr.
+    rewrite (cow_mkdir_overlay_entry sb sl tbl p perm sl1 fi E). split; [reflexivity|].
+    unfold same_view. cbn [fst snd]. now repeat split.
+  - assert (Hn : cow_is_not_exist (err_of r) = true /\ exists fi, snd (bstep sb (Stat p)) = RInfo fi).
+    { cbn [cow_step] in Hs. rewrite E in Hs.
+      destruct (cow_is_not_exist (err_of r)) eqn:Hc.
+      - split; [reflexivity|]. destruct (bstep sb (Stat p)) as [sb1 rb].
+        destruct r; try discriminate Hr; cbn [ret snd] in Hs; (destruct rb; try discriminate Hs; now eexists).
+      - destruct r; try discriminate Hr; cbn [ret snd] in Hs; discriminate Hs. }
+    destruct Hn as [Hn [fi Hb]]. destruct (bstep sb (Stat p)) as [sb1 rb] eqn:Eb. cbn [snd] in Hb. subst rb.
+    rewrite (cow_mkdir_base_dir sb sl tbl p perm sl1 r sb1 fi E Hr Hn Eb). split; [reflexivity|].
+    unfold same_view. cbn [fst snd]. pose proof (HbStat sb p) as H1. rewrite Eb in H1. now repeat split.
 Qed.
 End FailedView.
 
@@ -268,12 +300,12 @@ Theorem cow_refusals_view :
   (forall o p er, o = Remove p \/ o = RemoveAll p -> snd (lstep sl o) = RErr er ->
      res_is_err (snd (cow_step bstep lstep (sb, sl, tbl) o)) = true /\
      same_view vb vl (sb, sl, tbl) (fst (cow_step bstep lstep (sb, sl, tbl) o))) /\
-  (forall p perm fi, snd (bstep sb (Stat p)) = RInfo fi -> fi_dir fi = true ->
-     snd (cow_step bstep lstep (sb, sl, tbl) (Mkdir p perm)) = RErr (E KExist) /\
+  (forall p perm, is_info (snd (cow_step bstep lstep (sb, sl, tbl) (Stat p))) = true ->
+     snd (cow_step bstep lstep (sb, sl, tbl) (Mkdir p perm)) = RErr (EW KExist) /\
      same_view vb vl (sb, sl, tbl) (fst (cow_step bstep lstep (sb, sl, tbl) (Mkdir p perm)))).
 Proof.
   intros B L VB VL bstep lstep vb vl Hb Hl Hf sb sl tbl. split; [|split].
   - intros p q fi. now apply cow_rename_base_only_view.
   - intros o p er. now apply cow_remove_failed_view.
-  - intros p perm fi. now apply cow_mkdir_base_dir_view.
+  - intros p perm. now apply cow_mkdir_base_dir_view.
 Qed.
